@@ -14,7 +14,7 @@ from __future__ import annotations
 import ast
 from typing import Dict, List, Optional
 
-from ..cfg import all_assigned_names, build_cfg, names_in
+from ..cfg import all_assigned_names, build_cfg, make_opaque, names_in
 from ..common import Ctx, call_name, is_name, src
 from ..explore import Explorer
 from ..model import AnalysisError, FunctionInfo, own_scope_nodes
